@@ -331,11 +331,13 @@ sb_error_t sb_i_buffer_realloc(sb_buffer_t* buf, size_t new_capacity)
 
         size = sb_buffer_size(buf);
 
-        buf->stor_begin = sb_realloc(buf->stor_begin, uint8_t, new_capacity);
-        if (buf->stor_begin == 0) {
-            buf->stor_end = buf->end = 0;
+        uint8_t* new_begin = sb_realloc(buf->stor_begin, uint8_t, new_capacity);
+        if (new_begin == 0) {
+            /* the old block is still allocated and the buffer keeps using it */
             return SB_ENOMEM; /* LCOV_EXCL_LINE */
         }
+
+        buf->stor_begin = new_begin;
 
         buf->stor_end = buf->stor_begin + new_capacity;
         buf->end = buf->stor_begin + size;
